@@ -445,6 +445,7 @@ func (ex *Exec) globalRoot(e ast.Expr) *types.Var {
 // assignTo stores v into the location denoted by lhs.
 func (ex *Exec) assignTo(st *State, lhs ast.Expr, v Val) {
 	if _, isId := unparen(lhs).(*ast.Ident); !isId {
+		ex.sharedObjectStore(st, lhs)
 		if g := ex.globalRoot(lhs); g != nil {
 			// C20: a store through a package-level variable (table entry, shared object) is shared mutable state
 			ex.obligNoAssume(st, "global-write", lhs, "store into memory reached from package-level variable "+g.Name()+": "+ex.exprStr(lhs), False)
@@ -2345,4 +2346,62 @@ func (ex *Exec) mapRangeOrderFree(s *ast.RangeStmt) (bool, string) {
 		}
 	}
 	return false, "collected-keys-not-sorted-before-use"
+}
+
+// sharedObjectStore (C20): a store through a pointer-to-struct/array or a map whose type is also
+// the type of a package-level variable must not hit that shared object: one obligation
+// `base != <the package-level value>` per such variable. (Slices are not covered: byte buffers are
+// written everywhere and share their type with the package's byte constants.)
+func (ex *Exec) sharedObjectStore(st *State, lhs ast.Expr) {
+	if !sweepMode || ex.frameProbe {
+		return
+	}
+	var base ast.Expr
+	switch l := unparen(lhs).(type) {
+	case *ast.IndexExpr:
+		base = l.X
+	case *ast.SelectorExpr:
+		if _, ok := ex.P.Info.Selections[l]; !ok {
+			return
+		}
+		base = l.X
+	case *ast.StarExpr:
+		base = l.X
+	default:
+		return
+	}
+	bt := ex.typeOf(base)
+	if bt == nil {
+		return
+	}
+	switch u := bt.Underlying().(type) {
+	case *types.Pointer:
+		switch u.Elem().Underlying().(type) {
+		case *types.Struct, *types.Array:
+		default:
+			return
+		}
+	case *types.Map:
+	default:
+		return
+	}
+	scope := ex.P.Pkg.Types.Scope()
+	var gs []*types.Var
+	for _, n := range scope.Names() {
+		if v, ok := scope.Lookup(n).(*types.Var); ok && types.Identical(v.Type(), bt) {
+			gs = append(gs, v)
+		}
+	}
+	if len(gs) == 0 {
+		return
+	}
+	r, ok := ex.evalQuiet(st, base)
+	if !ok {
+		return
+	}
+	var all []*Term
+	for _, g := range gs {
+		all = append(all, Neq(r, ex.globalVal(g).C[0]))
+	}
+	ex.obligNoAssume(st, "global-write", lhs, fmt.Sprintf("store through %s must not hit a shared package-level object of type %s", ex.exprStr(base), types.TypeString(bt, func(*types.Package) string { return "" })), And(all...))
 }
